@@ -10,6 +10,26 @@ Conservative by construction: anything the scanner does not fully understand bec
 ("junk": the whole statement; "blob": the operand text of a string-taking directive) on which no
 rewrite rule has a site.
 
+EXCLUSIONS (the numbering E1..E16 and the reasons are in the header of spec/Lex.tla; here is where each one
+lives in this file):
+  E1  opaque text ........ scan(): operand of a string-taking / unknown directive -> one "blob" token; tokenize():
+                           a statement with anything not understood -> one "junk" token; Ctx.opq(), Ctx.gap_blocked()
+  E2  char literals ...... scan(): 'c "cc ^Rccc are "str" tokens; en_caseflip() never accepts "str"
+  E3  trivia ............. en_trivia(): blanks between tokens only (tokens are atomic), '; comment' only before a new
+                           line, blank line only next to a new line
+  E4  Radix / branch ..... en_radix(): stmt_kind == "br"            E5  label '1:' ... en_radix(): next token is ':'
+      ('1$', '0ball', bare 8/9 digits are "loc" tokens, never numbers: classify_number())
+  E6  '% n' .............. en_radix(): previous token is a lone '%' ('%3' is one "reg" token)
+  E7  '^X..' at line start en_radix(): at_line_start and a '^' spelling on either side
+  E8/E9 grouping only .... Ctx.role() ("idx" after a value, "mode" for (rN)); en_bracket(): never into '(rN)'
+  E10 Bracket / branch ... en_bracket(): stmt_kind == "br"          E11 caret delimiter clash ... en_bracket(): bit set m
+  E12 first token of line  en_bracket(), en_regalias(): at_line_start
+  E13 'r0:' / 'r0 =' ..... en_regalias(): next token is ':' or '='
+  E14 Synonym ............ en_synonym(): statement name only (scan() makes "mn"/"dir" tokens only at statement heads)
+  E15 WordListForm ....... first_ok(): a number not spelled with '^', or a plain symbol (no '_' first, no '$' '.')
+                           followed by ','
+  E16 LegacyDeferred ..... en_legacy(): whole operand '(rN)' / '@rN' of an instruction (operand_start / operand_end)
+
 Lexical facts used (learned by reading what pdpy11 *accepts*, never its expected values):
   * names  [a-z_$][a-z_0-9$.]*   numbers / local symbols  \\d[a-z_0-9$.]*   (both case-insensitive)
   * a ';' comment runs to the end of the line; every kind of white space, *including new lines*, is
@@ -770,7 +790,7 @@ class Ctx:
         if x["k"] != "open" or self.opq(q):
             return False
         j = self.match[q]
-        if j < 0 or self.role(q) != "grp":
+        if j < 0 or self.role(q) != "grp" or self.opq(j):
             return False
         if self.stmt_kind(q) == "br":                 # '(' in a branch operand switches the label heuristic off
             return False
@@ -959,10 +979,10 @@ def edits_for(lx, rule, site, p):
         var = (p // 4) % 4
         g = site
         if not c.en_trivia(g, kind):
-            # fall back to a kind that is enabled in this gap
-            for kk in (0, 1, 3, 2):
-                if c.en_trivia(g, kk):
-                    kind = kk
+            # Resolve of Lex.tla: the first enabled kind after the requested one (cyclically)
+            for dd in range(1, 4):
+                if c.en_trivia(g, (kind + dd) % 4):
+                    kind = (kind + dd) % 4
                     break
             else:
                 return None
@@ -1039,7 +1059,7 @@ def edits_for(lx, rule, site, p):
             return None
         if how == "drop":
             return [(tk.p0, tk.p1, "")]
-        return [(tk.p0, tk.p0, [".word ", ".WORD\t", ".dw ", ".Word  "][p % 4])]
+        return [(tk.p0, tk.p0, [".word ", ".word\t"][p % 2])]     # Lex.tla inserts the lower-case '.word'; Synonym / CaseFlip respell it
     if rule == "LegacyDeferred":
         how = c.en_legacy(q)
         if how is None:
